@@ -39,7 +39,7 @@ def plan(tier, seed):
     nsh = 16
     if tier == 'quick':
         specs = [{'kind': 'random', 'count': 14} for _ in range(nsh)]
-        specs.append({'kind': 'errors', 'count': 66})
+        specs.append({'kind': 'errors', 'count': 72})
         return specs
     # all 4^6 assignments, dealt round-robin to shards
     allx = list(itertools.product(range(4), repeat=6))
@@ -356,7 +356,7 @@ def run_build(ctx, rng, pool, root, assign, out_state, out_fmt, lua_from_file, r
 
 
 ERROR_KINDS = ('conflict', 'missing', 'wrongext', 'lua_for_data', 'bad_out_ext', 'empty_name', 'empty_name_conflict',
-               'source_is_absent_out', 'source_is_out_conflict', 'out_with_unparseable_lua', 'out_is_not_a_cart')
+               'source_is_absent_out', 'source_is_out_conflict', 'out_with_unparseable_lua', 'out_is_not_a_cart', 'source_cart_does_not_load')
 
 
 def run_error(ctx, rng, pool, root, index=0):
@@ -409,6 +409,13 @@ def run_error(ctx, rng, pool, root, index=0):
         argv += ['--' + sec, spell]
         if kind == 'source_is_out_conflict':
             argv += ['--empty-' + sec]
+    elif kind == 'source_cart_does_not_load':
+        # a source that exists and has the right extension but is not a loadable cart (its code has a syntax error; it is some other
+        # file): the section cannot be taken from it
+        badsrc = os.path.join(root, 'broken_source.p8')
+        with open(badsrc, 'wb') as fh:
+            fh.write(rng.choice((rc.write_p8(carts.random_regions(rng, 'uniform')[0], b'x = = 1\nfunction f(\n', version=8), b'just some notes\n', b'')))
+        argv += ['--' + sec, badsrc]
     elif kind in ('out_with_unparseable_lua', 'out_is_not_a_cart'):
         # OUT exists and cannot be read as a cart (its code is work in progress and does not parse; it is some other file): its
         # sections cannot be carried over, the build fails and the file stays as it is
